@@ -168,6 +168,47 @@ def file_layouts(ctx):
             shutil.rmtree(root, ignore_errors=True)
 
 
+def both_files_life(ctx):
+    """both log names present (a migrated store that kept its legacy file): every command, through the whole life of the store — including
+    the moment `prune` + `compact` leave plans.jsonl empty — reads and writes plans.jsonl and never looks at the other file"""
+    root, proj, st = mk_project(ctx, True, True, True)
+    try:
+        ev_path = os.path.join(st.dir, "events.jsonl"); pl_path = os.path.join(st.dir, "plans.jsonl")
+        ghost = {"type": "new_task", "ts": "2020-01-01T00:00:00Z", "data": {"id": "GHOST1", "uuid": "ug", "epic_id": "", "state": "todo", "title": "legacy ghost", "body": "", "created_at": "2020-01-01T00:00:00Z"}}
+        open(ev_path, "ab").write((json.dumps(ghost) + "\n").encode())
+        ev_bytes = open(ev_path, "rb").read()
+        trace = [{"layout": "plans.jsonl and events.jsonl both present; events.jsonl holds an item (GHOST1) that plans.jsonl does not"}]
+        def step(argv, stdin=None, cwd=None):
+            rr = st.exec(argv, stdin, cwd=cwd or proj)
+            trace.append({"argv": argv, "stdin": None if stdin is None else stdin.decode(), "exit": rr["exit"]})
+            prob = None
+            if open(ev_path, "rb").read() != ev_bytes:
+                prob = "events.jsonl was modified"
+            ls = st.exec(["--json", "list", "--all"], cwd=os.path.join(proj, "sub"))
+            if ls["exit"] != 0:
+                prob = prob or "list fails: %s" % ls["stderr"].strip()[:100]
+            elif any(t["id"] == "GHOST1" for t in json.loads(ls["stdout"])):
+                prob = prob or "list shows the item that exists only in events.jsonl (plans.jsonl is %d bytes)" % os.path.getsize(pl_path)
+            ctx.count(1, key=("both-files", argv[1] if argv[0] == "--json" else argv[0], os.path.getsize(pl_path) == 0))
+            if prob:
+                ctx.violation("C18 commands switched log file while both exist", "after `%s`: %s" % (" ".join(argv), prob), {"trace": trace})
+                return None
+            return rr
+        ls = json.loads(st.exec(["--json", "list", "--all"], cwd=proj)["stdout"])
+        for t in ls:
+            if step(["--json", "set", t["id"]], b'{"state":"done"}') is None: return
+        for argv in (["--json", "--agent", "p", "prune", "--yes"], ["--json", "compact"], ["--json", "--agent", "p", "prune", "--yes"], ["--json", "compact"]):
+            if step(argv) is None: return
+        size0 = os.path.getsize(pl_path)
+        rr = step(["--json", "new", "task"], b'{"title":"after the store was emptied"}')
+        if rr is None: return
+        if rr["exit"] != 0 or os.path.getsize(pl_path) <= size0:
+            ctx.violation("C18 write went to the wrong file (both present, plans.jsonl emptied)", "new task: exit %s; plans.jsonl %d → %d bytes" % (rr["exit"], size0, os.path.getsize(pl_path)), {"trace": trace}); return
+        step(["--json", "init"])
+    finally:
+        shutil.rmtree(root, ignore_errors=True)
+
+
 def run(ctx):
     framework.check_facts(ctx, ctx.facts, ["log_name_uses"])
     res = fndiff.run_stream(ctx.ev, ["fn-path", str(ctx.seed + 1800), "1500" if ctx.quick else "20000"])
@@ -177,6 +218,7 @@ def run(ctx):
         ctx.tie_broken("T2-fn path functions", {"first_difference": fndiff.first_difference(d["go"], d["model"]), "p": "".join(map(chr, d["req"]["p"])), "start": "".join(map(chr, d["req"]["start"]))})
     discovery(ctx)
     init_first(ctx)
+    both_files_life(ctx)
     file_layouts(ctx)
     ctx.cov["exhaustive"] = True
     ctx.cov["rule"] = ("generated path strings → Go Clean/Dir/Base/Join/resolveErgoDir (real temp tree, chdir) vs model; then exhaustively: 5 working directories × 7 target directories "
